@@ -424,6 +424,32 @@ func c06G4(c *Ctx, r *Report, a *Anchors) {
 		}
 	}
 	r.floor("C06.G4", "resolver invocations (Resolver, AnyResolver, reflection)", n, 3)
+	// output coercion in the type dispatcher: the position is null when the coercion fails
+	m := 0
+	if fn := a.dispatch; fn != nil {
+		for _, ci := range callsIn(fn) {
+			call, ok := ci.(*ssa.Call)
+			if !ok {
+				continue
+			}
+			if f := calleeObj(call); f == nil || f.Name() != "CoerceOut" {
+				continue
+			}
+			m++
+			key := fmt.Sprintf("%s: output coercion #%d yields null on failure", fnName(fn), m)
+			val, errv := extractOf(call, 0), extractOf(call, 1)
+			switch {
+			case errv == nil:
+				r.check("C06.G4", key, call.Pos(), false, "the coercion error is discarded")
+			case val == nil:
+				r.check("C06.G4", key, call.Pos(), true, "")
+			default:
+				ok2, why := valueDroppedOnError(val, errv)
+				r.check("C06.G4", key, call.Pos(), ok2, why+": an output coercer may return the unconverted value together with its error")
+			}
+		}
+	}
+	r.floor("C06.G4", "output coercions in the type dispatcher", m, 1)
 }
 
 func calleeDesc(call *ssa.Call) string {
